@@ -93,3 +93,58 @@ def judgeComplete (d : Dump n) : Option String :=
   check (d.nodes.all (·.expanded)) "an unexpanded node remains"
 
 end Balm.Impl
+
+namespace Balm.Impl
+
+open Balm
+
+variable {n : Nat}
+
+/-- ids reachable from `start` along edges (including `start`) -/
+def reachIds (pairs : List (Nat × Nat)) : Nat → List Nat → List Nat → List Nat
+  | 0, _, seen => seen
+  | _, [], seen => seen
+  | fuel+1, x :: fr, seen =>
+    let new := ((pairs.filter (·.1 == x)).map (·.2)).eraseDups.filter fun y => !seen.contains y && !fr.contains y
+    reachIds pairs fuel (fr ++ new) (seen ++ new)
+
+def Dump.reach (d : Dump n) (start : Nat) : List Nat :=
+  reachIds d.pairs (d.nodes.length + 1) [start] [start]
+
+def Dump.isExp (d : Dump n) (i : Nat) : Bool := (d.nodes[i]?.map (·.expanded)).getD false
+
+/-- C15: an unrestricted BFS/DFS from `start` that returned `true` left no stub below `start` -/
+def judgeTrueComplete (d : Dump n) (start : Nat) : Option String :=
+  check ((d.reach start).all d.isExp) s!"returned True but an unexpanded node is reachable from node {start}"
+
+/-- C15: a size-limited run returns `false` only if an unexpanded node remains below `start` -/
+def judgeFalseHasStub (d : Dump n) (start : Nat) : Option String :=
+  check ((d.reach start).any fun i => !d.isExp i) s!"returned False although no unexpanded node is reachable from node {start}"
+
+/-- `find_node` : the node whose space equals the query exactly -/
+def Dump.find (d : Dump n) (p : Space n) : Option Nat :=
+  let i := (d.nodes.map (·.space)).idxOf p
+  if i < d.nodes.length then some i else none
+
+/-- model of `SuccessionDiagram.is_subgraph` -/
+def isSubgraph (a b : Dump n) : Bool :=
+  (List.range a.nodes.length).all fun i =>
+    !a.isExp i ||
+    match b.find (a.space i) with
+    | none => false
+    | some oi =>
+      let osucc := if b.isExp oi then b.succ oi else []
+      (a.succ i).all fun s =>
+        match b.find (a.space s) with
+        | none => false
+        | some os => osucc.contains os
+
+/-- specification of `is_subgraph` on the abstract diagrams: every expanded node of `a` is a node of
+    `b`, and every edge of `a` (as a pair of spaces) is an edge of `b` -/
+def subgraphSpec (a b : Dump n) : Bool :=
+  (List.range a.nodes.length).all fun i =>
+    !a.isExp i ||
+    ((b.nodes.map (·.space)).contains (a.space i) &&
+      (a.succ i).all fun s => b.pairs.any fun e => b.space e.1 == a.space i && b.space e.2 == a.space s)
+
+end Balm.Impl
